@@ -716,12 +716,33 @@ func checkSequenceNotDropped(p *Prog, r *Report, rule string) {
 			}
 			return false
 		}
+		var derivesFromVP func(v ssa.Value, depth int) bool
+		derivesFromVP = func(v ssa.Value, depth int) bool {
+			v = resolveLocal(v)
+			if v == ssa.Value(vp) {
+				return true
+			}
+			if depth > 4 {
+				return false
+			}
+			switch x := v.(type) {
+			case *ssa.Phi:
+				for _, e := range x.Edges {
+					if e != v && derivesFromVP(e, depth+1) {
+						return true
+					}
+				}
+			case *ssa.Slice:
+				return derivesFromVP(x.X, depth+1)
+			}
+			return false
+		}
 		spreads := false
 		eachInstr(f, func(i ssa.Instruction) {
 			if isFeed(i) {
 				// only methods that take the list apart element by element (index / range over it)
 				eachInstr(f, func(j ssa.Instruction) {
-					if ia, ok := j.(*ssa.IndexAddr); ok && resolveLocal(ia.X) == ssa.Value(vp) {
+					if ia, ok := j.(*ssa.IndexAddr); ok && derivesFromVP(ia.X, 0) {
 						spreads = true
 					}
 				})
@@ -753,6 +774,19 @@ func checkSequenceNotDropped(p *Prog, r *Report, rule string) {
 				okAll = false
 			}
 		}
+		// the list that is spread is the caller's list: it is not cut short first (trailing values that "repeat" are values)
+		cut := ""
+		eachInstr(f, func(i ssa.Instruction) {
+			sl, ok := i.(*ssa.Slice)
+			if !ok || sl.High == nil {
+				return
+			}
+			if derivesFromVP(sl.X, 0) {
+				cut = p.Pos(posOf(sl))
+			}
+		})
+		r.Check(cut == "", rule, "values of "+shortName(f)+" are spread as given", p.Pos(f.Pos()), "the variadic list is not truncated before it is spread",
+			"the list of values is cut short ("+cut+") before it is spread over the single-value methods: values the caller gave (equal-looking trailing ones included — distinct pointers, a sequence extended later) are never recorded")
 		r.Check(okAll, rule, "values of "+shortName(f)+" are dropped only when there are none", p.Pos(f.Pos()), "an early return without feeding is entailed len(values) == 0",
 			"the method gives up without recording anything for a non-empty list (e.g. for a single value): Returns(v) configures nothing and the call panics with 'no suitable condition' or falls through to another stub")
 	}
